@@ -8,7 +8,7 @@ from ..common import Outcome, pmap, validate_all, known_findings
 from ..envctl import MachineryError
 from ..tlc import run_tlc
 
-KINDS = ['int64', 'bigint', 'float', 'negzero', 'inf', 'nan', 'str', 'bytes', 'none', 'bool', 'container', 'stream']
+KINDS = ['int64', 'bigint', 'float', 'negzero', 'inf', 'nan', 'str', 'bytes', 'none', 'bool', 'container', 'stream', 'badkeymap']
 LENS = ['zero', 'below', 'at', 'above', 'big']
 FEATS = ['CR', 'LF', 'CRLF', 'NUL', 'U85', 'U2028', 'astral', 'surrogate', 'BOM']
 
@@ -41,7 +41,7 @@ def run(prop, tier, seed):
     res = run_tlc('Codec.tla', 'Codec.cfg', workers=4, timeout=300)
     if res.error or res.violation:
         raise MachineryError('Codec.tla: %s %s' % (res.error, res.violation))
-    out.add_tlc('Codec.cfg', res, 'full product: 12 kinds x 5 length classes x feature sets x 4 thresholds x 2 disks x 16 accessors (incr / decr inside and across the 64-bit range for integers)')
+    out.add_tlc('Codec.cfg', res, 'full product: 13 kinds x 5 length classes x feature sets x 4 thresholds x 2 disks x 16 accessors (incr / decr inside and across the 64-bit range for integers)')
     vcs = value_cases(rng, tier)
     jobs = []
     tid = 0
